@@ -1,5 +1,6 @@
 //! Hosts: the same program and the same action script run under several real hosts.
 
+use std::sync::Arc;
 use std::collections::BTreeMap;
 
 use bincode::Options as _;
@@ -28,6 +29,9 @@ pub enum HostSel {
     BridgeJson,
     /// H5 over the `#[effect]` app
     BridgeBincodeFx,
+    /// H7: the command polled as a `Stream` by a foreign executor: one stable waker per command, polled
+    /// again only when that waker was woken (event loop as in a Core)
+    Stream,
 }
 
 impl HostSel {
@@ -164,6 +168,141 @@ impl Shelf {
                 }
             }
         }
+    }
+}
+
+// ------------------------------------------------------------------------------------------------
+// H7: polled as a stream with a stable waker
+
+struct FlagWaker(std::sync::atomic::AtomicBool);
+impl std::task::Wake for FlagWaker {
+    fn wake(self: Arc<Self>) {
+        self.0.store(true, std::sync::atomic::Ordering::SeqCst);
+    }
+    fn wake_by_ref(self: &Arc<Self>) {
+        self.0.store(true, std::sync::atomic::Ordering::SeqCst);
+    }
+}
+
+pub struct StreamHost<Ef: SimEffect> {
+    roots: Vec<(Command<Ef, Event>, Arc<FlagWaker>, std::task::Waker)>,
+    app: AppModel,
+    shelf: Shelf,
+    log_seen: usize,
+    pending: Vec<EffectDesc>,
+}
+
+impl<Ef: SimEffect> StreamHost<Ef> {
+    pub fn new() -> Self {
+        StreamHost { roots: vec![], app: AppModel::default(), shelf: Shelf::default(), log_seen: 0, pending: vec![] }
+    }
+
+    fn start(&mut self, ev: Event) {
+        let cmd = update_impl::<Ef>(ev, &mut self.app, None);
+        let flag = Arc::new(FlagWaker(std::sync::atomic::AtomicBool::new(true)));
+        let waker = std::task::Waker::from(flag.clone());
+        self.roots.push((cmd, flag, waker));
+    }
+
+    /// what a Core does in `process`: run what is runnable, then apply one emitted event, and again
+    fn process(&mut self) {
+        use futures::Stream;
+        let mut queue: std::collections::VecDeque<Event> = Default::default();
+        loop {
+            loop {
+                let mut any = false;
+                let mut i = 0;
+                while i < self.roots.len() {
+                    let (cmd, flag, waker) = &mut self.roots[i];
+                    if !flag.0.swap(false, std::sync::atomic::Ordering::SeqCst) {
+                        i += 1;
+                        continue;
+                    }
+                    any = true;
+                    let mut cx = std::task::Context::from_waker(waker);
+                    let mut ended = false;
+                    loop {
+                        match std::pin::Pin::new(&mut *cmd).poll_next(&mut cx) {
+                            std::task::Poll::Ready(Some(crux_core::command::CommandOutput::Effect(e))) => {
+                                self.shelf.absorb(vec![e], &mut self.pending);
+                            }
+                            std::task::Poll::Ready(Some(crux_core::command::CommandOutput::Event(ev))) => queue.push_back(ev),
+                            std::task::Poll::Ready(None) => {
+                                ended = true;
+                                break;
+                            }
+                            std::task::Poll::Pending => break,
+                        }
+                    }
+                    if ended {
+                        self.roots.remove(i);
+                    } else {
+                        i += 1;
+                    }
+                }
+                if !any {
+                    break;
+                }
+            }
+            match queue.pop_front() {
+                Some(ev) => self.start(ev),
+                None => break,
+            }
+        }
+    }
+}
+
+impl<Ef: SimEffect> Host for StreamHost<Ef> {
+    fn sel(&self) -> HostSel {
+        HostSel::Stream
+    }
+    fn send_event(&mut self, ev: Event) -> Result<(), String> {
+        self.start(ev);
+        self.process();
+        Ok(())
+    }
+    fn resolve(&mut self, key: ReqKey, v: u64) -> Result<Outcome, String> {
+        let Some(h) = self.shelf.reqs.get_mut(&key) else { return Ok(Outcome::Unknown) };
+        let r = match h {
+            Held::A(r) => r.resolve(v),
+            Held::B(r) => r.resolve(out_b(v)),
+        };
+        if r.is_ok() {
+            self.process();
+        }
+        Ok(if r.is_ok() { Outcome::Accepted } else { Outcome::Rejected })
+    }
+    fn drop_req(&mut self, key: ReqKey) -> bool {
+        // not a call into the host: what it wakes runs at the next call
+        self.shelf.reqs.remove(&key);
+        true
+    }
+    fn settle(&mut self) -> StepObs {
+        let mut effects = std::mem::take(&mut self.pending);
+        effects.sort();
+        let new_log = self.app.log[self.log_seen..].to_vec();
+        self.log_seen = self.app.log.len();
+        StepObs { effects, new_log, roots_done: None, reentered: self.app.reentered }
+    }
+    fn full_log(&mut self) -> Vec<LogEntry> {
+        self.app.log.clone()
+    }
+    fn stats(&mut self) -> HostStats {
+        let mut s = HostStats::default();
+        s.executor_tasks = self.roots.len();
+        for (c, _, _) in &self.roots {
+            s.command_tasks += c.verif_live_tasks();
+            let (r, sp) = c.verif_queued();
+            s.ready_queue += r;
+            s.spawn_queue += sp;
+        }
+        s
+    }
+    fn holds(&self, key: ReqKey) -> bool {
+        self.shelf.reqs.contains_key(&key)
+    }
+    fn drop_all_roots(&mut self) {
+        self.roots.clear();
     }
 }
 
@@ -829,5 +968,6 @@ pub fn make_host(sel: HostSel) -> Box<dyn Host> {
         HostSel::BridgeBincode => Box::new(BridgeHost::<app1::App>::new(Wire::Bincode, sel)),
         HostSel::BridgeJson => Box::new(BridgeHost::<app1::App>::new(Wire::Json, sel)),
         HostSel::BridgeBincodeFx => Box::new(BridgeHost::<app2::App>::new(Wire::Bincode, sel)),
+        HostSel::Stream => Box::new(StreamHost::<app2::Fx>::new()),
     }
 }
